@@ -4,6 +4,7 @@ import (
 	"errors"
 	"fmt"
 	"math"
+	"math/big"
 	"sync/atomic"
 
 	"gonum.org/v1/gonum/mat"
@@ -281,6 +282,9 @@ func pinnedLPs() []*lpCase {
 		// pivots forever with tol=0
 		{gen: "pinned", c: []int{2, 2, 3, 3, 3, 4}, a: [][]int{{1, -5, -1, -1, 2, 4}, {-3, -5, 4, 4, -2, 2}, {-3, 5, -4, -4, -4, 4}, {-2, -1, 4, 4, 1, -5}}, b: []int{3, 5, 0, -2}, tol: 0},
 		{gen: "pinned", c: []int{2, 2, 3, 3, 3, 4}, a: [][]int{{1, -5, -1, -1, 2, 4}, {-3, -5, 4, 4, -2, 2}, {-3, 5, -4, -4, -4, 4}, {-2, -1, 4, 4, 1, -5}}, b: []int{3, 5, 0, -2}, tol: lpTol},
+		// square, exact solution (0,3,2,0); the LU solve returns -1.06e-13 for the first component
+		{gen: "pinned", c: []int{0, 0, 0, 0}, a: [][]int{{1, 2, -2, -5}, {0, 1, -5, 1}, {1, 1, -1, -4}, {2, -5, 0, 2}}, b: []int{2, -7, 1, -15}, tol: 0},
+		{gen: "pinned", c: []int{0, 0, 0, 0}, a: [][]int{{1, 2, -2, -5}, {0, 1, -5, 1}, {1, 1, -1, -4}, {2, -5, 0, 2}}, b: []int{2, -7, 1, -15}, tol: lpTol, dense: true},
 		// Beale's cycling example (rows scaled to integers): the largest-coefficient
 		// rule without an anti-cycling device returns to its starting basis after six pivots.
 		{gen: "pinned-beale", c: []int{0, 0, 0, -3, 80, -2, 24}, a: [][]int{{4, 0, 0, 1, -32, -4, 36}, {0, 2, 0, 1, -24, -1, 6}, {0, 0, 1, 0, 0, 1, 0}}, b: []int{0, 0, 1}, tol: lpTol},
@@ -405,6 +409,16 @@ func judgeLP(c *vrt.Ctx, p *lpCase, ref *lpRef, o lpOut, cf, bf []float64) {
 			c.Count("lp.tol0_numeric_failure_with_optimal_point", 1)
 			return
 		}
+		if en == "ErrInfeasible" && m == n {
+			if why, ok := luRoundingExplains(p); ok {
+				// RC12: the misclassification is explained by the rounding of
+				// the LU solve exceeding the absolute sign tolerance. It gets a
+				// path class of its own so that a known finding for it cannot
+				// hide any other wrong ErrInfeasible on square programs.
+				shape = "square,lu-rounding-exceeds-absolute-tolerance"
+				deg += "; " + why
+			}
+		}
 		if en != "nil" {
 			viol("optimal", "classified-"+en, fmt.Sprintf("exact optimum %v ("+deg+", %d feasible bases): got %s (%v), f=%v x=%v", opt, ref.nFeasible, en, o.err, o.f, o.x))
 			return
@@ -443,6 +457,43 @@ func judgeLP(c *vrt.Ctx, p *lpCase, ref *lpRef, o lpOut, cf, bf []float64) {
 			viol("optimal", "optF-ne-c'x", fmt.Sprintf("optF=%v c'x=%v", o.f, cx))
 		}
 	}
+}
+
+// luRoundingExplains decides, from the input alone, whether a wrong
+// ErrInfeasible on the square program p is explained by rounding in the
+// float64 LU solve of A x = b: some component of the exact solution is zero
+// (|x_i| <= 1e-12 |x|inf) and the float64 solution has a NEGATIVE value there
+// whose magnitude lies in (initPosTol, 1e3*eps*cond1(A)*max(1,|x|inf)].
+func luRoundingExplains(p *lpCase) (string, bool) {
+	const initPosTol = 1e-13 // gonum's absolute sign tolerance
+	n := len(p.c)
+	inv := ratInverse(ratMat(p.a))
+	if inv == nil {
+		return "", false
+	}
+	exact := make([]float64, n)
+	xinf := 0.0
+	for i := 0; i < n; i++ {
+		s := new(big.Rat)
+		for k := 0; k < n; k++ {
+			s.Add(s, new(big.Rat).Mul(inv[i][k], big.NewRat(int64(p.b[k]), 1)))
+		}
+		exact[i], _ = s.Float64()
+		xinf = math.Max(xinf, math.Abs(exact[i]))
+	}
+	ad := mat.NewDense(n, n, flatten(p.a, n))
+	var xf mat.VecDense
+	if err := xf.SolveVec(ad, mat.NewVecDense(n, toF(p.b))); err != nil {
+		return "", false
+	}
+	bound := 1e3 * 0x1p-52 * mat.Cond(ad, 1) * math.Max(1, xinf)
+	for i := 0; i < n; i++ {
+		v := xf.AtVec(i)
+		if math.Abs(exact[i]) <= 1e-12*xinf && v < 0 && -v > initPosTol && -v <= bound {
+			return fmt.Sprintf("exact x[%d]=0, float64 LU solution %g, cond1(A)=%.3g", i, v, mat.Cond(ad, 1)), true
+		}
+	}
+	return "", false
 }
 
 // lpPointOK reports whether x is feasible and optimal within the tolerances.
